@@ -488,14 +488,14 @@ fn same_or_both_nan(x: f64, y: f64) -> Option<bool> {
     }
 }
 
-/// `ci`, `ki`: class / cluster indices (0..8) of the samples; `map_t`, `map_p`: index → label value.
-/// `renames`: further (map_t, map_p) renamings under which the scores must not change.
-/// Returns the library's (h, c, v).
 thread_local! {
     /// write every second occurrence of the label value 0 as -0.0 (set by the length-sweep family)
     pub static SIGNED_ZEROS: std::cell::Cell<bool> = std::cell::Cell::new(false);
 }
 
+/// `ci`, `ki`: class / cluster indices (0..8) of the samples; `map_t`, `map_p`: index → label value.
+/// `renames`: further (map_t, map_p) renamings under which the scores must not change.
+/// Returns the library's (h, c, v).
 pub fn hcv_case(ci: &[usize], ki: &[usize], map_t: &[i64; 8], map_p: &[i64; 8], renames: &[(usize, usize)], functions_too: bool, origin: &dyn Fn() -> String) -> [f64; 3] {
     let mut yt: Vec<f64> = ci.iter().map(|c| map_t[*c] as f64).collect();
     let mut yp: Vec<f64> = ki.iter().map(|k| map_p[*k] as f64).collect();
